@@ -430,6 +430,9 @@ func (s *runtimeState) resolveIngress(r *http.Request, requestPath string) (stri
 	}
 
 	for _, rt := range s.routes {
+		if !servedByIngress(rt) {
+			continue
+		}
 		if !router.MatchPath(requestPath, rt.Path) {
 			continue
 		}
@@ -469,6 +472,9 @@ func (s *runtimeState) allowedMethodsFor(r *http.Request, requestPath string) []
 	var out []string
 
 	for _, rt := range s.routes {
+		if !servedByIngress(rt) {
+			continue
+		}
 		if !router.MatchPath(requestPath, rt.Path) {
 			continue
 		}
@@ -499,6 +505,13 @@ func (s *runtimeState) allowedMethodsFor(r *http.Request, requestPath string) []
 	}
 
 	return out
+}
+
+// servedByIngress reports whether the ingress listener may hand requests to
+// the route: only inbound routes (the default channel type) accept ingress
+// traffic; outbound and internal routes are fed by publish / other channels.
+func servedByIngress(rt config.CompiledRoute) bool {
+	return rt.ChannelType == "" || rt.ChannelType == config.ChannelInbound
 }
 
 func (s *runtimeState) resolvePull(endpoint string) (string, bool) {
